@@ -29,7 +29,10 @@ RULE = ("point clouds of 1..60 points (uniform, clustered so that interior block
         "with reductions whose block results are not whole numbers (float32: compared within relative 2^-20); 2-D inputs are given in "
         "mixed memory layouts (C, Fortran, transposed view of a transposed copy, strided view of a larger buffer, negative "
         "strides), a different one per array; a quarter of the cases are observed on an instance that has already filtered "
-        "other data, and the result must be bitwise that of a fresh instance. A case is non-trivial when the call returns, at least one "
+        "other data, and the result must be bitwise that of a fresh instance. The other data is another survey: a cloud with a different point count and a clearly different bounding box "
+        "(shifted far away / three times larger / four times smaller), and 70 % of these instances (plus fixed edge cases with "
+        "spacing, shape and adjust=region) have region=None so that each call must infer its own region. For every case "
+        "get_params() of the instance is compared before and after filter(): a written constructor parameter makes holds false. A case is non-trivial when the call returns, at least one "
         "block has >= 2 members and there are >= 2 non-empty blocks; distinct = distinct full input.")
 ASSUMPTIONS = [
     "pandas DataFrame.groupby(key).aggregate(f) calls f once per distinct key on the rows carrying it (in row order) and returns the results sorted by key; numpy.unique returns the sorted distinct labels - modelled by the executable specifications groupby / ukeys and re-validated against the implementation on every run",
@@ -118,15 +121,37 @@ def _fmt(a, tag="C"):
 
 
 def first_call_args(coords, data, weights, weighted_ok):
-    """different arguments for a first call on an instance that is then reused: points in reverse order,
-    other values, a single component"""
-    rev = lambda a: np.ascontiguousarray(np.asarray(a).ravel()[::-1].reshape(np.asarray(a).shape))
-    c1 = [rev(c) for c in coords]
-    d1 = rev(np.asarray(data[0], dtype=float)) * -2.0 + 1.0
+    """arguments for a first call on an instance that is then reused for the case's data: another survey -
+    a cloud with a different number of points and a clearly different bounding box (shifted far away /
+    three times larger / four times smaller, chosen by the point count), other values, a single component, 1-D"""
+    flat = [np.asarray(c, dtype=float).ravel() for c in coords]
+    n = flat[0].size
+    m = n // 2 + 3 if n % 2 else n + 5
+    idx = np.arange(m) % n
+    jit = (np.arange(m) // n) * 0.03125          # repeated points are moved a little
+    mode = n % 3
+    c1 = []
+    for k, c in enumerate(flat):
+        v = c[idx] + jit
+        if k < 2:
+            c0 = float(c.min())
+            if mode == 0:
+                v = v + (17.5 if k == 0 else -11.25)              # shifted
+            elif mode == 1:
+                v = (v - c0) * 3.0 + c0 - 5.0                     # larger
+            else:
+                v = (v - c0) * 0.25 + c0 + 0.5                    # smaller
+        c1.append(v)
+    d1 = np.arange(m) * 0.5 - 3.0
     w1 = None
     if weights is not None and weighted_ok:
-        w1 = rev(np.asarray(weights[-1], dtype=float)) + 0.25
+        w1 = (np.arange(m) % 7 + 1) * 0.25
     return tuple(c1), d1, w1
+
+
+def params_snapshot(est):
+    """constructor parameters as get_params() reports them (filter() must not write them)"""
+    return {k: (v if callable(v) else repr(v)) for k, v in est.get_params().items()}
 
 
 def _same(a, b):
@@ -143,8 +168,10 @@ def observe(vd, red, coords, data, weights, kw, tuple1=False, twice=False):
     """run the real code; returns ('ok', coords_list, data_list) | ('ValueError',) | ('other', name).
     twice: the instance has already filtered other data; its result must be that of a fresh instance"""
     stale = False
+    params_ok = True
     try:
         br = vd.BlockReduce(getattr(np, REDS[red][3:]), **kw)
+        params = params_snapshot(br)
         d = tuple(data) if len(data) != 1 or tuple1 else data[0]
         w = None if weights is None else (tuple(weights) if len(weights) != 1 else weights[0])
         if twice:
@@ -152,14 +179,18 @@ def observe(vd, red, coords, data, weights, kw, tuple1=False, twice=False):
                 br.filter(*first_call_args(coords, data, weights, True))
             except Exception:
                 pass
-        oc, od = br.filter(tuple(coords), d, w)
+            params_ok = params_snapshot(br) == params
+        try:
+            oc, od = br.filter(tuple(coords), d, w)
+        finally:
+            params_ok = params_ok and params_snapshot(br) == params
         if twice:
             fresh = vd.BlockReduce(getattr(np, REDS[red][3:]), **kw).filter(tuple(coords), d, w)
             stale = not _same((tuple(oc), od), (tuple(fresh[0]), fresh[1]))
     except ValueError:
-        return ("ValueError",)
+        return ("ValueError", params_ok)
     except Exception as exc:
-        return ("other", type(exc).__name__ + ": " + str(exc)[:100])
+        return ("other", type(exc).__name__ + ": " + str(exc)[:100], params_ok)
     od = list(od) if isinstance(od, tuple) else [od]
     oc = list(oc)
     extra = [np.zeros(1)] if stale else []
@@ -167,7 +198,7 @@ def observe(vd, red, coords, data, weights, kw, tuple1=False, twice=False):
         if np.asarray(a).ndim != 1:
             extra = [np.zeros(1)]
     return ("ok", [np.asarray(a, dtype=float).ravel() for a in oc] + extra,
-            [np.asarray(a, dtype=float).ravel() for a in od] + extra)
+            [np.asarray(a, dtype=float).ravel() for a in od] + extra, params_ok)
 
 
 def make_case(vd, red, coords, data, weights, kw, kind, expect_valid=True):
@@ -192,10 +223,10 @@ def make_case(vd, red, coords, data, weights, kw, kind, expect_valid=True):
         cobs = "None"
     else:
         cobs = "None" if expect_valid else "(Some ([], []))"
-    term = "c09_case %s %s %s %s %s %s %s (%s, %s) %s %s %s" % (
+    term = "c09_case %s %s %s %s %s %s %s (%s, %s) %s %s %s %s" % (
         kw.get("_epsd", "eps40"), kw.get("_epsc", "eps40"), red, clist([cZ(v) for v in labels]), _cdll(coords), _cdll(data), cw,
         _cdl(centres[0]), _cdl(centres[1]),
-        cbool(kwc.get("center_coordinates", False)), cbool(kwc.get("drop_coords", True)), cobs)
+        cbool(kwc.get("center_coordinates", False)), cbool(kwc.get("drop_coords", True)), cbool(bool(obs[-1])), cobs)
     counts = {}
     for v in labels:
         counts[v] = counts.get(v, 0) + 1
@@ -204,14 +235,22 @@ def make_case(vd, red, coords, data, weights, kw, kind, expect_valid=True):
         REDS[red], kwc, ", ".join(_fmt(c, t) for c, t in zip(coords, tc)), ", ".join(_fmt(d, t) for d, t in zip(data, td)),
         "None" if weights is None else "(%s,)" % ", ".join(_fmt(w, t) for w, t in zip(weights, tw))))
     if kw.get("_twice"):
-        repro += "  # observed on an instance that had filtered other data before (result must equal this fresh call)"
+        repro = ("import numpy as np, verde; from harness.c09 import first_call_args; c = (%s,); d = (%s,); w = %s; "
+                 "br = verde.BlockReduce(%s, **%r); p = br.get_params(); br.filter(*first_call_args(c, d, w, True)); "
+                 "print(br.filter(c, d if len(d) > 1 else d[0], w if w is None or len(w) > 1 else w[0])); "
+                 "print('fresh:', verde.BlockReduce(%s, **%r).filter(c, d if len(d) > 1 else d[0], w if w is None or len(w) > 1 else w[0])); "
+                 "print('get_params unchanged:', br.get_params() == p)" % (
+                     ", ".join(_fmt(c, t) for c, t in zip(coords, tc)), ", ".join(_fmt(d, t) for d, t in zip(data, td)),
+                     "None" if weights is None else "(%s,)" % ", ".join(_fmt(w, t) for w, t in zip(weights, tw)),
+                     REDS[red], kwc, REDS[red], kwc))
     inp = {"reduction": REDS[red], "kwargs": kwc, "coordinates": [np.asarray(c).tolist() for c in coords],
            "data": [np.asarray(d).tolist() for d in data],
            "weights": None if weights is None else [np.asarray(w).tolist() for w in weights],
            "labels_from_block_split": labels,
            "dtypes": [str(np.asarray(a).dtype) for a in list(coords) + list(data) + (list(weights) if weights is not None else [])],
            "layouts": kw.get("_layouts"), "instance_reused": bool(kw.get("_twice"))}
-    out = [obs[0]] + ([[a.tolist() for a in obs[1]], [a.tolist() for a in obs[2]]] if obs[0] == "ok" else list(obs[1:]))
+    out = [obs[0]] + ([[a.tolist() for a in obs[1]], [a.tolist() for a in obs[2]]] if obs[0] == "ok" else list(obs[1:-1])) \
+        + [{"get_params_unchanged": bool(obs[-1])}]
     return Case(inp, out, term, repro, kind, nontrivial=nontrivial)
 
 
@@ -315,7 +354,10 @@ def random_config(rnd, vd, i, weighted, kind=None):
     r = rnd.random()
     e0, n0 = np.ravel(coords[0]), np.ravel(coords[1])
     degenerate = n == 1 or len(set(e0.tolist())) == 1 or len(set(n0.tolist())) == 1
-    if r < 0.5 or degenerate:
+    # a quarter of the cases run on an instance that has filtered another survey before; most of those leave
+    # the region to be inferred from each call's own points
+    twice = rnd.random() < 0.25
+    if (r < 0.5 and not (twice and rnd.random() < 0.7)) or degenerate:
         if rnd.random() < 0.3:
             kw["region"] = (box[0] - 2, box[1] + 3, box[2] - 1, box[3] + 2)   # larger: empty border blocks
         elif rnd.random() < 0.2:
@@ -352,7 +394,7 @@ def random_config(rnd, vd, i, weighted, kind=None):
             weights = [apply_layout(w, t) for w, t in zip(weights, tags[len(coords) + len(data):])]
     if ncomp == 1 and rnd.random() < 0.3:
         kw["_tuple1"] = True
-    if rnd.random() < 0.25:
+    if twice:
         kw["_twice"] = True
     return red, coords, data, weights, kw
 
@@ -410,6 +452,17 @@ def edge_cases(rnd, vd):
             arrs = [e2 + 0.0, n2 + 0.0, (d2 * 3).astype(dt), d2.astype(dt), (d2 * d2).astype(dt)]
             arrs = [apply_layout(a, t) for a, t in zip(arrs, tags)]
             out.append((red, arrs[:3], arrs[3:], None, kw))
+    # one object, two surveys: the instance first filters a cloud with another bounding box (shifted / larger /
+    # smaller, by point count) and point count; region=None, so each call must infer its own region
+    for npts in (12, 13, 14):
+        e3 = (np.arange(npts) * 11 % npts) * 0.5 + 1.0; n3 = (np.arange(npts) * 5 % npts) * 0.25 - 2.0
+        d3 = np.arange(npts) * 1.5 - 4.0; w3 = (np.arange(npts) % 5 + 1) * 0.5; u3 = np.arange(npts)[::-1] * 2.0 + 7.0
+        for blk in (dict(spacing=1.5), dict(shape=(3, 2)), dict(spacing=(1, 2), adjust="region")):
+            for center in (False, True):
+                kw = dict(blk, center_coordinates=center, drop_coords=not center, _twice=True)
+                out.append(("RMedian", [e3, n3, u3], [d3], None, dict(kw)))
+                out.append(("RSum", [e3, n3, u3], [d3, d3 * d3], None, dict(kw)))
+                out.append(("RAverage", [e3, n3, u3], [d3, -d3], [w3, w3[::-1].copy()], dict(kw)))
     return out
 
 
